@@ -387,10 +387,20 @@ class PassWorld(World):
                 return self._free_call(env[p][1], args)
             if "::" not in p and p in self.free and p not in env:
                 args = [self.eval(a, env, uses) for a in e["args"]]
-                return self._free_call(p, args)
-            if "::" not in p and p in self.stubs and p not in env:
+                cells_ = []
+                for a in e["args"]:
+                    a0 = strip(a)
+                    while a0["k"] in ("Ref", "Paren") or (a0["k"] == "Unary" and a0.get("op") == "*"):
+                        a0 = strip(a0["e"])
+                    cells_.append(env.get("&" + a0["path"]) if a0["k"] == "Path" else None)
+                self._pending_cells = cells_ if any(c_ is not None for c_ in cells_) else None
+                try:
+                    return self._free_call(p, args)
+                finally:
+                    self._pending_cells = None
+            if p not in env and last(p) in self.stubs and ("::" not in p or all(sg_ and (sg_[0].islower() or sg_[0] == "_") for sg_ in p.split("::")[:-1])):
                 args = [self.eval(a, env, uses) for a in e["args"]]
-                return self.stubs[p](args)  # a function defined elsewhere, modelled by the rule
+                return self.stubs[last(p)](args)  # a function defined elsewhere (possibly named with its module path), modelled by the rule
             sg_ = p.split("::")
             if self.lenient_opaque and len(sg_) >= 2 and p not in env and (sg_[-2], sg_[-1]) not in self.methods and sg_[-1] not in ("Some", "Ok", "Err", "max", "min") and sg_[-2] not in self.enums and sg_[-1] not in self.structs and sg_[-2][:1].isupper() and sg_[-2] != "Self" and sg_[-2] not in VEC_TYPES and sg_[-2] not in MAP_TYPES:
                 args = [self.eval(a, env, uses) for a in e["args"]]
@@ -401,6 +411,11 @@ class PassWorld(World):
                 if any(isinstance(a, (Sink, MMap)) and n_.get("k") == "Ref" and n_.get("mut") for a, n_ in zip(args, e["args"])):
                     raise Unsupported("unknown function %s takes a collection it may change" % p)
                 return ("K", p, tuple(args))  # a function defined elsewhere: opaque result
+        if k == "MethodCall" and e["method"] in ("eq", "ne") and len(e["args"]) == 1:
+            a_ = self.eval(e["recv"], env, uses)
+            b_ = self.eval(e["args"][0], env, uses)
+            if isinstance(a_, tuple) and a_ and a_[0] == "E" and isinstance(b_, tuple) and b_ and b_[0] == "E":
+                return (a_ == b_) == (e["method"] == "eq")
         if k == "MethodCall" and e["method"] == "unwrap_or_default" and not e["args"]:
             recv = self.eval(e["recv"], env, uses)
             if isinstance(recv, tuple) and len(recv) > 2 and recv[0] == "S" and recv[1] in ("Some", "Ok"):
@@ -879,6 +894,14 @@ class PassWorld(World):
                 cell, key = env["&" + l["path"]]
                 cell[key] = val  # the binding came from a field of a node matched by reference: write through
                 return ("T", ())
+            if l["k"] == "MethodCall" and not l["args"]:
+                base = self.eval(l["recv"], env, uses)
+                if isinstance(base, tuple) and len(base) > 2 and base[0] == "O":
+                    for k_, v_ in base[2]:
+                        if k_ == "set:" + l["method"] and isinstance(v_, tuple) and v_[0] == "PY":
+                            v_[1](self.eval(e["r"], env, uses))  # `*x.get_mut_f() = v`: the object records what it is given
+                            return ("T", ())
+                raise Unsupported("assignment through %s()" % l["method"])
             if l["k"] == "Field":
                 base = self.eval(l["base"], env, uses)
                 val = self.eval(e["r"], env, uses)
